@@ -308,6 +308,8 @@ def run(run: Run) -> None:
     for gi in range(1 if quick else 3):
         v = sam4[(3 * seed + 7 + 61 * gi) % len(sam4)]
         us.append(("search", 4, v, base4, 2, "sam_apx_1", gaps.NAMES[gi % 4], ps_q if quick else ps_all, (2,) if gi == 0 else (), f"sam4#{gi}"))
+    g5 = A.shifted(tuple(A.popcount(s) ** 2 + (s % 3) for s in range(32)), (1, -1, 2, 0, 3))
+    us.append(("search", 5, g5, A.kmask(A.minimal_ids(5)) | 1 << 3 | 1 << 28, 2, SA[1], "l1_norm", [1, 2, 16] if quick else [1, 2, 3, 4, 8, 16], (), "exact5"))
     if not quick:
         us.append(("search", 4, picks4[0], base4, 4, SA[1], "l1_norm", [1, 2, 4, 16], (2,), "exact4-k4"))
     for i, name in enumerate(("noisy_factory", "graph_random", "xos")):
@@ -347,7 +349,7 @@ def run(run: Run) -> None:
 
     def cost(u):
         if u[0] == "search":
-            return (10 if u[1] == 4 else 1) * len(u[7]) * (1 + (u[4] or 3))
+            return (10 if u[1] == 4 else 60 if u[1] == 5 else 1) * len(u[7]) * (1 + (u[4] or 3))
         return 5
     run.add(fanout(dispatch, sorted(us, key=lambda u: -cost(u)), procs=10, chunk=1))
 
